@@ -2,8 +2,12 @@
 # usage: try_mutant.sh <patch.diff> <Cxx> [tier]  — applies the patch to /repo, runs the check, reverts.
 set -u
 P="$1"; ID="$2"; TIER="${3:-quick}"
-git -C /repo apply "$P" || { echo "patch does not apply"; exit 2; }
+if ! git -C /repo apply "$P" 2>/dev/null; then
+  if ! git -C /repo apply --3way "$P" 2>/dev/null; then
+    if ! (cd /repo && patch -p1 -F3 -s < "$P"); then git -C /repo reset -q --hard HEAD; echo "patch does not apply"; exit 2; fi
+  fi
+fi
 cd /verif && ./check "$ID" --tier "$TIER"; RC=$?
-git -C /repo checkout -- .
+git -C /repo reset -q --hard HEAD; git -C /repo clean -qfd crates
 echo "check exit=$RC"
 exit 0
